@@ -20,7 +20,14 @@ Ltac sym_step :=
       | _ => destruct x eqn:?
       end
   end.
-Ltac sym := repeat (cbn in *; try discriminate; try sym_step).
+(* closes the branches whose recorded test results contradict each other (f = 2 and f = 4, ...) *)
+Ltac absurd_tests :=
+  solve [ repeat match goal with
+                 | H : (?a =? _) = true |- _ => apply N.eqb_eq in H; first [subst a | rewrite H in *]
+                 end;
+          cbn in *; rewrite ?app_nil_r in *; congruence ].
+
+Ltac sym := repeat (cbn; try congruence; try solve [cbn in *; congruence]; try sym_step).
 
 Theorem code_report_errors_is_model O c st who errs sec :
   run_report_errors docflow_code O c [VObj who; VErrs errs; VSec sec] st =
@@ -33,8 +40,9 @@ Qed.
 Definition markup_value (m : option N) : value := match m with Some f => VFmt f | None => VNone end.
 
 Ltac sym2 :=
-  repeat (cbn -[run_report_errors run_parse_docstring report_errors parse_docstring] in *;
-          unfold processtypes_wrap, base_parser in *; rewrite ?app_nil_r in *; try discriminate; try congruence;
+  repeat (cbn -[run_report_errors run_parse_docstring report_errors parse_docstring get_docformat];
+          unfold processtypes_wrap, base_parser, F_PLAINTEXT; rewrite ?app_nil_r; try congruence;
+          try absurd_tests;
           try rewrite code_report_errors_is_model; try sym_step).
 
 Theorem code_parse_docstring_is_model O c st obj doc source markup sec :
@@ -44,8 +52,67 @@ Theorem code_parse_docstring_is_model O c st obj doc source markup sec :
 Proof.
   unfold run_parse_docstring, run_fn. change (c_parse_docstring docflow_code) with code_parse_docstring.
   unfold code_parse_docstring, parse_docstring, effective_parser, base_parser, processtypes_wrap, skip_processtypes,
-    callee_report, F_REPORT_ERRORS.
+    callee_report, F_REPORT_ERRORS, F_PLAINTEXT.
   destruct markup as [m|]; cbn [markup_value].
-  - generalize m as f. intros f. sym2.
-  - generalize (get_docformat c source) as f. intros f. sym2.
+  - sym2.
+  - sym2.
+Qed.
+
+Corollary code_parse_docstring_default O c st obj doc source sec :
+  run_parse_docstring docflow_code O c [VObj obj; VText doc; VObj source; VNone; VSec sec] st =
+  CRet (VParsed (fst (parse_docstring O c st obj doc source None sec)))
+       (snd (parse_docstring O c st obj doc source None sec)).
+Proof. exact (code_parse_docstring_is_model O c st obj doc source None sec). Qed.
+
+(* model.get_docstring never returns a docstring without its source *)
+Lemma get_docstring_from_has_source c l d : get_docstring_from c l = (Some d, None) -> False.
+Proof.
+  induction l as [|s l IH]; cbn [get_docstring_from]; [discriminate|].
+  destruct (docstring c s) as [[|a t]|]; [discriminate|discriminate|exact IH].
+Qed.
+
+Ltac sym3 :=
+  repeat (cbn -[run_report_errors run_parse_docstring report_errors parse_docstring get_docstring run_fallback];
+          unfold set_pdoc, upd; rewrite ?N.eqb_refl; try congruence;
+          try solve [cbn in *; unfold upd in *; rewrite ?N.eqb_refl in *; cbn in *; congruence];
+          try rewrite code_report_errors_is_model; try rewrite code_parse_docstring_default;
+          try absurd_tests; try sym_step).
+
+Theorem code_ensure_parsed_docstring_is_model O c st o :
+  run_ensure_parsed_docstring docflow_code O c [VObj o] st =
+  CRet (opt_value VObj (fst (ensure_parsed_docstring O c st o))) (snd (ensure_parsed_docstring O c st o)).
+Proof.
+  unfold run_ensure_parsed_docstring, run_fn.
+  change (c_ensure_parsed_docstring docflow_code) with code_ensure_parsed_docstring.
+  unfold code_ensure_parsed_docstring, ensure_parsed_docstring, ensure_from, callee_parse, callee_report,
+    F_PARSE_DOCSTRING, F_REPORT_ERRORS, SEC_DOCSTRING, set_pdoc, upd.
+  destruct (get_docstring c o) as [[d|] [s|]] eqn:Hg.
+  - sym3.
+  - exfalso. unfold get_docstring in Hg. exact (get_docstring_from_has_source _ _ _ Hg).
+  - sym3.
+  - sym3.
+Qed.
+
+Theorem code_safe_to_stan_is_model O c st pd linker ctx fb rep sec :
+  run_safe_to_stan docflow_code O c [VParsed pd; linker; VObj ctx; VFb fb; VBool rep; VSec sec] st =
+  CRet (VStan (fst (safe_to_stan O c st pd ctx fb rep sec))) (snd (safe_to_stan O c st pd ctx fb rep sec)).
+Proof.
+  unfold run_safe_to_stan, run_fn. change (c_safe_to_stan docflow_code) with code_safe_to_stan.
+  unfold code_safe_to_stan, safe_to_stan, callee_report, F_REPORT_ERRORS.
+  sym3.
+Qed.
+
+(* ---- the property itself, on the code translated from epydoc2stan.py --------------------------------------- *)
+From PydoctorVerif Require Import Spec.DocContract.
+
+Theorem code_parse_docstring_falls_back O c st obj doc source sec :
+  gives_up O c (applicable_format c source) doc ->
+  exists st', run_parse_docstring docflow_code O c [VObj obj; VText doc; VObj source; VNone; VSec sec] st =
+              CRet (VParsed (PPlain doc)) st' /\
+              (raised_error_is_recorded O -> mem_pe sec source (parse_errors st') = true).
+Proof.
+  intros Hg. rewrite code_parse_docstring_default, parse_docstring_eq. cbn [fst snd chosen_format].
+  rewrite get_docformat_applicable, (gives_up_outcome _ _ _ _ Hg).
+  eexists. split; [reflexivity|]. intros Hc. apply report_errors_mem_after.
+  apply (gives_up_errs_nonempty _ _ _ _ Hc Hg).
 Qed.
